@@ -3,9 +3,10 @@ package main
 // C08 Registration validated up front: ill-formed rejected, well-formed accepted.
 
 import (
-	"sort"
+	"fmt"
 	"go/token"
 	"go/types"
+	"sort"
 	"strings"
 
 	"golang.org/x/tools/go/ssa"
@@ -251,6 +252,101 @@ func checkC08(c *Check) {
 	} else {
 		c.Anchor("route.constructMatchStyleRegex")
 	}
+
+	// ---- R10 bind names are taken from the style interpreters, not re-derived from the AST
+	c.Rule("R10", "E4 taint", "a name tested for duplication on the registration path comes from the node's style interpreter (checkMatchStylePlaceholder, checkMatchStyleAll, constructMatchStyleRegex) or from stored node binds, never from a second reading of the AST's BindIdent / BindParameter.Ident fields: which identifiers of a segment are binds depends on its match style (`capture` in a match-all is an annotation)", 1)
+	{
+		interp := map[*ssa.Function]bool{}
+		for _, n := range []string{"checkMatchStylePlaceholder", "checkMatchStyleAll", "constructMatchStyleRegex"} {
+			if f := p.Fn("route", n); f != nil {
+				interp[f] = true
+			} else {
+				c.Anchor("route." + n)
+			}
+		}
+		rawBindName := func(v ssa.Value) bool {
+			in, ok := v.(ssa.Instruction)
+			if !ok || in.Parent() == nil || interp[in.Parent()] {
+				return false
+			}
+			_, ns, ok := fieldPath(v)
+			if !ok || len(ns) == 0 {
+				return false
+			}
+			last := ns[len(ns)-1]
+			if last == "BindIdent" {
+				return true
+			}
+			if last != "Ident" {
+				return false
+			}
+			// BindParameter.Ident is a string, SegmentElement.Ident (literal text) a *string
+			_, isBasic := v.Type().Underlying().(*types.Basic)
+			return isBasic && len(ns) >= 2 && ns[len(ns)-2] == "Parameters"
+		}
+		// through helpers: a call of a module function (not an interpreter) stands for what it returns
+		var viaCalls func(depth int) VM
+		viaCalls = func(depth int) VM {
+			return func(v ssa.Value) bool {
+				if rawBindName(v) {
+					return true
+				}
+				cl, ok := v.(*ssa.Call)
+				if !ok || depth <= 0 {
+					return false
+				}
+				for _, cal := range p.moduleCallees(&cl.Call) {
+					if interp[cal] {
+						continue
+					}
+					hit := false
+					allInstrs(cal, func(in ssa.Instruction) {
+						if r, ok := in.(*ssa.Return); ok {
+							for _, res := range r.Results {
+								if derivesFrom(res, viaCalls(depth-1), nil) {
+									hit = true
+								}
+							}
+						}
+					})
+					if hit {
+						return true
+					}
+				}
+				return false
+			}
+		}
+		n, bad := 0, 0
+		var fns []*ssa.Function
+		if ar := p.Fn("route", "AddRoute"); ar != nil {
+			fns = p.ReachFrom(ar)
+		} else {
+			c.Anchor("route.AddRoute")
+		}
+		for _, fn := range fns {
+			allInstrs(fn, func(in ssa.Instruction) {
+				l, ok := in.(*ssa.Lookup)
+				if !ok {
+					return
+				}
+				if _, isMap := l.X.Type().Underlying().(*types.Map); !isMap {
+					return
+				}
+				n++
+				if derivesFrom(l.Index, viaCalls(3), nil) {
+					bad++
+					c.Bad(p.FuncKey(fn)+":raw-bind-name", p.Pos(l.Pos()), "a name read straight from the AST (BindIdent / BindParameter.Ident) outside the style interpreters is tested against a name set: identifiers that are not binds for the segment's style (e.g. `capture` of a match-all) are treated as binds, so well-formed routes can be rejected")
+				}
+			})
+		}
+		if bad == 0 && len(fns) > 0 {
+			c.OK("registration:bind-name-source", "internal/route", fmt.Sprintf("%d set lookups in %d registration functions; every tested name comes from a style interpreter or stored binds", n, len(fns)), 1)
+		}
+	}
+
+	// ---- R11 the text that is validated is the text the user wrote
+	c.Rule("R11", "shared with C11 (R2)", "Route hands groupPath(outer→inner) + routePath to the parser unchanged: a rewrite of the text before parsing (collapsing, trimming, replacing) hides empty inner segments and other grammar violations from the only place that rejects them", 3)
+	c.Share("C11", []string{"R2"}, 3)
 
 	// ---- R6 root typestate
 	c.Rule("R6", "E3 nil-typestate", "the segment of a tree that may be the root (parent == nil) is used only where getParent() != nil has been established", 1)
@@ -572,6 +668,25 @@ func checkBindUniqueness(c *Check) {
 				}
 			})
 			c.Cond(ok && len(atRoot) > 0 && stored, key+":walk", p.FuncPos(g), "collects getBinds() of every ancestor up to the root", "the ancestor bind set does not cover every ancestor's binds")
+			// every reported bind is put into the set: no name is exempt from the duplicate test
+			allInstrs(g, func(in ssa.Instruction) {
+				mu, ok := in.(*ssa.MapUpdate)
+				if !ok {
+					return
+				}
+				if _, isE := elemIndex(mu.Key, binds); !isE {
+					return
+				}
+				from, _ := strip(mu.Key).(ssa.Instruction)
+				if from == nil {
+					return
+				}
+				if skip, path := iterationSkips(g, from, mu); skip {
+					c.Bad(key+":every-bind", p.Pos(mu.Pos()), "an ancestor's bind can be left out of the set (a name exempt from the duplicate test): two binds of that name along one route are accepted, and matching and URL building then share one value between them", path)
+				} else {
+					c.OK(key+":every-bind", p.Pos(mu.Pos()), "every bind the ancestors report is stored in the set", 1)
+				}
+			})
 		}
 	} else {
 		c.Anchor("route.getParentBindSet")
@@ -948,4 +1063,22 @@ func errorLeaks(b, pred *ssa.BasicBlock, err ssa.Value) bool {
 		return false
 	}
 	return dfs(b, pred, map[ssa.Value]bool{err: true}, 0)
+}
+
+// iterationSkips reports whether, starting right after instruction from (the load of a loop
+// element), control can leave the iteration — reach a block that strictly dominates from's
+// block, or a return — without executing must.
+func iterationSkips(fn *ssa.Function, from, must ssa.Instruction) (bool, string) {
+	fb := from.Block()
+	target := func(in ssa.Instruction) bool {
+		if _, isRet := in.(*ssa.Return); isRet {
+			return true
+		}
+		b := in.Block()
+		return b != fb && b.Dominates(fb) && len(b.Instrs) > 0 && b.Instrs[0] == in
+	}
+	if in, path := (Query{Fn: fn, Avoid: isInstr(must)}).After(from, target); in != nil {
+		return true, blockPath(path)
+	}
+	return false, ""
 }
